@@ -79,8 +79,15 @@ def worker_main(pid, casefile, outfile):
     mod = load_check(pid)
     with open(casefile) as f:
         cases = json.load(f)
+    claim_dir = os.environ.get("VERIF_CLAIM_DIR")
     with open(outfile, "w") as out:
         for case in cases:
+            if claim_dir:
+                # dynamic distribution: every worker sees all cases and takes the next one nobody has claimed yet
+                try:
+                    os.close(os.open(os.path.join(claim_dir, str(case["_i"])), os.O_CREAT | os.O_EXCL | os.O_WRONLY))
+                except FileExistsError:
+                    continue
             faulthandler.dump_traceback_later(CASE_WATCHDOG_S, exit=True)
             t0 = time.time()
             try:
@@ -124,22 +131,24 @@ def run_check(pid, tier, seed, jobs=None, verbose=False):
     reached_all = set()
     try:
         procs = []
+        cf = os.path.join(tmp, "cases.json")
+        with open(cf, "w") as f:
+            json.dump(cases, f)
+        claim_dir = os.path.join(tmp, "claims")
+        os.mkdir(claim_dir)
         for j in range(jobs):
-            shard = cases[j::jobs]
-            cf = os.path.join(tmp, f"cases{j}.json")
             of = os.path.join(tmp, f"out{j}.jsonl")
-            with open(cf, "w") as f:
-                json.dump(shard, f)
             env = dict(os.environ)
+            env["VERIF_CLAIM_DIR"] = claim_dir
             env["PYTHONHASHSEED"] = "0"
             env["VERIF_TIER"] = tier
             env.setdefault("PYTHONDONTWRITEBYTECODE", "1")
             p = subprocess.Popen([sys.executable, os.path.join(ROOT, "bin", "check"), pid, "--worker", cf, of],
                                  env=env, stdout=subprocess.PIPE, stderr=subprocess.STDOUT)
-            procs.append((p, of, len(shard)))
+            procs.append((p, of))
         budget = getattr(mod, "WALL_BUDGET", {"quick": 900, "thorough": 7200})[tier]
         deadline = time.time() + budget
-        for p, of, n in procs:
+        for p, of in procs:
             try:
                 out, _ = p.communicate(timeout=max(1, deadline - time.time()))
             except subprocess.TimeoutExpired:
@@ -158,11 +167,13 @@ def run_check(pid, tier, seed, jobs=None, verbose=False):
                             else:
                                 got.append(rec)
             results += got
-            if p.returncode != 0 or len(got) != n:
+            if p.returncode != 0:
                 tail = (out or b"").decode("utf-8", "replace")[-2000:]
-                inconclusive.append(f"worker rc={p.returncode} produced {len(got)}/{n} results: {tail}")
+                inconclusive.append(f"worker rc={p.returncode} after {len(got)} results: {tail}")
             elif verbose and out:
                 sys.stdout.write(out.decode("utf-8", "replace"))
+        if len(results) != len(cases) and not inconclusive:
+            inconclusive.append(f"workers produced {len(results)}/{len(cases)} results")
     finally:
         shutil.rmtree(tmp, ignore_errors=True)
 
